@@ -21,6 +21,11 @@
 // The random permutation generator of the traits is replaced by a deterministic one: the order of a scan
 // depends only on (seed, case index, thread id, number of scans this thread has started).
 //
+// Hidden variant i_hp_named (not drawn at random; tie A with the Lean machine lean/CdsVerif/Algo/Segmented): the intrusive
+// HP queue with named locations (segHead, segTail, segLock, s<j> / s<j>.c<i> in allocation order, items i<v>), no address
+// reuse, every permutation drawn reported as a `PERM` note, the warm-up reported in the case header (qf= warm=).
+// tools/segq_pre.py folds the notes into the CALL lines.
+//
 // Options: --qf N (constructor argument), --perm 0|1|2 (shuffle | rotation | identity), --prefill N, --predeq N,
 //          --literal 1.
 #include <cds/init.h>
@@ -45,10 +50,14 @@ struct PermCtl {
     uint64_t seed = 0;
     int mode = 0;               // 0 = Fisher-Yates shuffle, 1 = rotation (like random2_permutation), 2 = identity
     uint64_t cnt[40];           // per thread (slot tid + 1; the main thread has tid -1): scans started
+    bool note = false;          // variant i_hp_named (tie A): every permutation drawn is reported (PERM note / warm-up log)
+    bool warming = false;       // the fixture's constructor is running the warm-up
+    std::string warm;           // warm-up log: ";E<v>" / ";D" per operation, "/a.b.c" per permutation drawn
     void init( uint64_t s, int m )
     {
         seed = s; mode = m;
         for ( auto& c : cnt ) c = 0;
+        note = false; warming = false; warm.clear();
     }
 };
 static PermCtl g_perm;
@@ -97,6 +106,19 @@ public:
             for ( size_t i = 0; i < m_n; ++i ) m_a[i] = integer_type( i );
         }
         m_cur = 0;
+        if ( g_perm.note ) {
+            // tie A: the permutation is an input of the Lean machine's operation
+            std::ostringstream os;
+            if ( current_tid() >= 0 ) {
+                os << "PERM";
+                for ( size_t i = 0; i < m_n; ++i ) os << ' ' << long( m_a[i] );
+                ev_note( os.str());
+            }
+            else if ( g_perm.warming ) {
+                for ( size_t i = 0; i < m_n; ++i ) os << ( i ? '.' : '/' ) << long( m_a[i] );
+                g_perm.warm += os.str();
+            }
+        }
     }
 
 private:
@@ -106,6 +128,54 @@ private:
 };
 
 // ---------------------------------------------------------------------------------------------------
+// Allocator of the hidden variant i_hp_named (tie A, Lean machine Algo/Segmented): segments are numbered in
+// allocation order and named `s<j>` (header) / `s<j>.c<i>` (cells); a freed segment is kept in quarantine while
+// the fixture lives, so an address (a name) is never reused: the machine's garbage-collected heap.
+
+namespace segnames {
+    static bool active = false;
+    static size_t qf = 0;           // cells per segment
+    static size_t hdr = 0;          // sizeof( segment )
+    static size_t count = 0;        // segments allocated so far
+    static std::vector<void*> quarantine;
+
+    template <class T>
+    struct alloc {
+        typedef T value_type;
+        template <class U> struct rebind { typedef alloc<U> other; };
+        alloc() noexcept {}
+        template <class U> alloc( alloc<U> const& ) noexcept {}
+        T* allocate( size_t n, void const* = nullptr )
+        {
+            char* p = static_cast<char*>( ::operator new( n * sizeof( T )));
+            if ( active && n * sizeof( T ) >= hdr + qf * sizeof( void* )) {
+                char nm[48];
+                std::snprintf( nm, sizeof nm, "s%zu", count );
+                reg_name( p, hdr, nm );
+                for ( size_t i = 0; i < qf; ++i ) {
+                    std::snprintf( nm, sizeof nm, "s%zu.c%zu", count, i );
+                    reg_name( p + hdr + i * sizeof( void* ), sizeof( void* ), nm );
+                }
+                ++count;
+            }
+            return reinterpret_cast<T*>( p );
+        }
+        void deallocate( T* p, size_t ) noexcept
+        {
+            if ( active ) quarantine.push_back( p );
+            else ::operator delete( p );
+        }
+        template <class U> bool operator==( alloc<U> const& ) const noexcept { return true; }
+        template <class U> bool operator!=( alloc<U> const& ) const noexcept { return false; }
+    };
+    inline void start( size_t cells, size_t header ) { active = true; qf = cells; hdr = header; count = 0; }
+    inline void stop()
+    {
+        active = false;
+        for ( void* p : quarantine ) ::operator delete( p );
+        quarantine.clear();
+    }
+}
 
 struct ISegQ {
     virtual ~ISegQ() {}
@@ -123,6 +193,9 @@ struct ctraits : cc::segmented_queue::traits {
 struct itraits : ci::segmented_queue::traits {
     typedef cds::sync::spin lock_type;
     typedef det_permutation<int> permutation_generator;
+};
+struct ntraits : itraits {
+    typedef segnames::alloc<int> allocator;
 };
 
 template <class Q>
@@ -146,17 +219,27 @@ struct ContainerSQ : ISegQ {
     bool empty() const override { return q->empty(); }
 };
 
-template <class GC>
+template <class GC, class Traits = itraits>
 struct IntrusiveSQ : ISegQ {
     struct item { long v; long enqueued; };
-    typedef ci::SegmentedQueue<GC, item, itraits> queue_t;
+    typedef ci::SegmentedQueue<GC, item, Traits> queue_t;
     std::unique_ptr<queue_t> q;
     std::vector<std::unique_ptr<item>> items;       // client-owned, live until the fixture dies, enqueued once
-    explicit IntrusiveSQ( size_t qf ) : q( new queue_t( qf )) { name_queue( *q ); }
+    char const* item_prefix;
+    bool named;
+    explicit IntrusiveSQ( size_t qf, bool named_ = false ) : item_prefix( named_ ? "i" : "item" ), named( named_ )
+    {
+        if ( named )
+            segnames::start( cds::beans::ceil2( qf ), sizeof( typename queue_t::segment ));
+        q.reset( new queue_t( qf ));
+        name_queue( *q );
+    }
     ~IntrusiveSQ()
     {
         while ( q->dequeue()) {}        // unlink without disposing
         q.reset();
+        if ( named )
+            segnames::stop();
     }
     bool enq( long v ) override
     {
@@ -164,7 +247,7 @@ struct IntrusiveSQ : ISegQ {
         p->v = v; p->enqueued = 1;
         items.emplace_back( p );
         char nm[32];
-        std::snprintf( nm, sizeof nm, "item%ld", v );
+        std::snprintf( nm, sizeof nm, "%s%ld", item_prefix, v );
         reg_name( p, sizeof( item ), nm );
         return q->enqueue( *p );
     }
@@ -219,6 +302,11 @@ struct Fixture {
         else if ( v == "c_dhp" ) s.reset( new ContainerSQ<cds::gc::DHP>( qf_arg ));
         else if ( v == "i_hp" ) s.reset( new IntrusiveSQ<cds::gc::HP>( qf_arg ));
         else if ( v == "i_dhp" ) s.reset( new IntrusiveSQ<cds::gc::DHP>( qf_arg ));
+        else if ( v == "i_hp_named" ) {
+            // hidden variant (not in variants()): trace-conformance tie with the Lean machine Algo/Segmented
+            g_perm.note = true;
+            s.reset( new IntrusiveSQ<cds::gc::HP, ntraits>( qf_arg, true ));
+        }
         else { std::fprintf( stderr, "unknown variant %s\n", v.c_str()); std::exit( 2 ); }
         qf = s->quasi_factor();
         if ( qf < qf_arg || qf >= 2 * qf_arg || ( qf & ( qf - 1 )) != 0 || qf < 2 ) {
@@ -232,18 +320,29 @@ struct Fixture {
         Rng r( c.seed * 7777ull + c.index * 31ull + 5 );
         size_t pre = size_t( c.optl( "prefill", long( r.below( 2 * qf + 2 ))));
         size_t dq = size_t( c.optl( "predeq", long( r.below( pre + 1 ))));
+        g_perm.warming = true;
         for ( size_t i = 0; i < pre; ++i )
             do_enq( -1, 1001 + long( i ), true );
         for ( size_t i = 0; i < dq; ++i )
             do_deq( -1, true );
+        g_perm.warming = false;
     }
     std::string spec() const { return "none"; }
+    // i_hp_named: what the Lean machine needs to rebuild the state the scheduled program starts in (it replays the warm-up)
+    std::string header_extra() const
+    {
+        if ( !g_perm.note ) return std::string();
+        std::ostringstream os;
+        os << "qf=" << qf << " warm=" << ( g_perm.warm.empty() ? "-" : g_perm.warm );
+        return os.str();
+    }
 
     long now( bool pre ) { return pre ? ++pre_clock : long( tick()); }
 
     bool do_enq( int tid, long v, bool pre )
     {
         long t0 = now( pre );
+        if ( pre && g_perm.note ) { std::ostringstream os; os << ";E" << v; g_perm.warm += os.str(); }
         bool ok = s->enq( v );
         long t1 = now( pre );
         enqs.push_back( EnqRec{ v, t0, t1, tid, ok } );
@@ -253,6 +352,7 @@ struct Fixture {
     {
         long v = 0;
         long t0 = now( pre );
+        if ( pre && g_perm.note ) g_perm.warm += ";D";
         bool ok = s->deq( v );
         long t1 = now( pre );
         deqs.push_back( DeqRec{ ok ? v : 0, t0, t1, tid, ok } );
